@@ -12,9 +12,19 @@
    (noise_blocks nz Rb); the UKF is given the block-diagonal matrix bdiag k Rb.
    Oracles enter through their contracts: sqrt_ok (std::sqrt on non-negative
    numbers), sq_contract (the SVD factor A of a PSD matrix satisfies A A^T = P).
-   Scope: linear layouts -- SUKFCorrection sizes its sigma set from pred_state.dim
+   Scope: linear and Euler STATE layouts (nl linear rows, then n - nl angles), linear and
+   Euler MEASUREMENT layouts (ml linear rows, then m - ml angles: both corrections use
+   directional_mean / directional_sub there, and every theorem below holds for any ml
+   without further premise) -- SUKFCorrection sizes its sigma set from pred_state.dim
    (2*dim+1) whereas sigma_point() produces 2*dim_covariance+1 columns; the model
-   has dim = dim_covariance = n and nsig n = 1 + (n + n) sigma points.
+   has dim = dim_covariance = n and nsig n = 1 + (n + n) sigma points.  With angle rows
+   the covariance clause carries the explicit premise state_roundtrip (the sigma-point
+   perturbations are recovered by directional_sub after directional_add, i.e. they lie in
+   (-pi, pi]); it is an identity for a linear layout (C05_linear_roundtrip).  Mean and
+   likelihood need no such premise.  Before the fix "SUKFCorrection treats circular measurement
+   components on the circle" the SUKF ignored the circular part of the measurement
+   description; that transcription is C05_Model.sukf_correct_comp (= the present one at
+   ml := m) and C05_ignoring_circular_measurement_refuted below keeps the counterexample.
 
    REMARK (no stale state).  The model of one correct() call, sukf_correct, is a pure
    function of THAT call's inputs: weights (fixed at construction), h, y, the noise
@@ -29,7 +39,7 @@
    Coq, it is the correspondence check that must establish it.  It does so on sequence
    cases (kind sukf_seq: one SUKFCorrection object per constructor and one UKFCorrection
    object driven through 2-4 calls while R, y, h, the belief and the sizes change). *)
-Require Import ZArith QArith List.
+Require Import ZArith QArith Qround List.
 Require Import BFL.Ops BFL.ListOps BFL.Density BFL.C05_Model.
 From mathcomp Require Import all_ssreflect all_algebra.
 Require Import BFL.MxOps BFL.LinAlg BFL.C05_Proofs.
@@ -47,7 +57,7 @@ Let O := MxMat tr sq eg.
 Hypothesis sqrt_ok : forall x : F, 0 <= x -> t_sqrt tr x * t_sqrt tr x = x.
 Hypothesis sq_contract : forall d (P : 'M[F]_d), psd P -> @sq d P *m (@sq d P)^T = P.
 
-Variables (n k s : nat).
+Variables (n nl ml k s : nat).
 Notation m := (k * s)%N.
 Hypothesis s_gt0 : (0 < s)%N.
 
@@ -80,56 +90,74 @@ Hypothesis Hnz : noise_blocks nz Rb.
 Hypothesis spdRb : forall j, (j < k)%N -> spd (Rb j).
 
 (* the weighted state offsets reproduce the prior covariance: X X^T = P *)
-Theorem C05_sigma_cov (x : M O n 1) (P : M O n n) : psd (P : 'M[F]_n) ->
-  Xw w x P *m (Xw w x P)^T = P.
+Theorem C05_sigma_cov (x : M O n 1) (P : M O n n) : psd (P : 'M[F]_n) -> state_roundtrip nl w x P ->
+  Xw nl w x P *m (Xw nl w x P)^T = P.
 Proof. exact: step_sigma_cov. Qed.
 
+(* the layout premise holds for a linear state layout (all n rows linear) *)
+Theorem C05_linear_roundtrip (x : M O n 1) (P : M O n n) : (n <= nl)%N -> state_roundtrip nl w x P.
+Proof. exact: state_roundtrip_linear. Qed.
+
 (* (ii) covariance *)
-Theorem C05_cov (x : M O n 1) (P : M O n n) : psd (P : 'M[F]_n) ->
-  so_cov (sukf_correct_comp w h y nz x P) =
-  uo_cov (ukf_correct_comp w h y (bdiag k Rb : M O m m) x P).
+Theorem C05_cov (x : M O n 1) (P : M O n n) : psd (P : 'M[F]_n) -> state_roundtrip nl w x P ->
+  so_cov (sukf_correct_comp_lay nl ml w h y nz x P) =
+  uo_cov (ukf_correct_comp_lay nl ml w h y (bdiag k Rb : M O m m) x P).
 Proof. exact: step_comp_cov. Qed.
 
 (* (iii) mean (no condition on P or on the SVD factor) *)
 Theorem C05_mean (x : M O n 1) (P : M O n n) :
-  so_mean (sukf_correct_comp w h y nz x P) =
-  uo_mean (ukf_correct_comp w h y (bdiag k Rb : M O m m) x P).
+  so_mean (sukf_correct_comp_lay nl ml w h y nz x P) =
+  uo_mean (ukf_correct_comp_lay nl ml w h y (bdiag k Rb : M O m m) x P).
 Proof. exact: step_comp_mean. Qed.
 
 (* (iv) likelihood: the UVR (Woodbury + determinant lemma) density of getLikelihood()
    equals N(y; ybar, Pyy) of UKFCorrection::getLikelihood() -- proved here for the
    call SUKFCorrection makes (one column, U = Y, V = Y^T), not taken from C15 *)
 Theorem C05_likelihood (x : M O n 1) (P : M O n n) :
-  sukf_likelihood_comp nz (sukf_correct_comp w h y nz x P) =
-  ukf_likelihood_comp (ukf_correct_comp w h y (bdiag k Rb : M O m m) x P).
-Proof. exact: (@step_comp_likelihood F tr sq eg sqrt_ok n k s alpha beta kappa h y nz Rb s_gt0 c_gt0 wc0_ge0 Hnz spdRb x P). Qed.
+  sukf_likelihood_comp nz (sukf_correct_comp_lay nl ml w h y nz x P) =
+  ukf_likelihood_comp (ukf_correct_comp_lay nl ml w h y (bdiag k Rb : M O m m) x P).
+Proof. exact: (@step_comp_likelihood F tr sq eg sqrt_ok n nl ml k s alpha beta kappa h y nz Rb s_gt0 c_gt0 wc0_ge0 Hnz spdRb x P). Qed.
 
 (* the matrices the two algorithms invert are invertible (invmx's totalisation is not used) *)
 Theorem C05_Cinv_invertible (x : M O n 1) (P : M O n n) :
-  (sukf_accum (so_Y (sukf_correct_comp w h y nz x P))
-              (so_innov (sukf_correct_comp w h y nz x P)) nz).1 \in unitmx.
-Proof. exact: (@step_Cinv_unit F tr sq eg n k s alpha beta kappa h y nz Rb s_gt0 Hnz spdRb x P). Qed.
+  (sukf_accum (so_Y (sukf_correct_comp_lay nl ml w h y nz x P))
+              (so_innov (sukf_correct_comp_lay nl ml w h y nz x P)) nz).1 \in unitmx.
+Proof. exact: (@step_Cinv_unit F tr sq eg n nl ml k s alpha beta kappa h y nz Rb s_gt0 Hnz spdRb x P). Qed.
+
+(* the arguments of the two logarithms are positive: det_S = det R det(I + Y^T R^-1 Y) in the
+   UVR density of SUKFCorrection::getLikelihood, det Pyy in UKFCorrection::getLikelihood
+   (so Coq's totalised ln is used inside its domain only) *)
+Theorem C05_sukf_log_argument_positive (x : M O n 1) (P : M O n n) :
+  0 < (uvr_terms (so_innov (sukf_correct_comp_lay nl ml w h y nz x P)) (mzero m 1)
+                 (so_Y (sukf_correct_comp_lay nl ml w h y nz x P))
+                 (@mtr O m (nsig n) (so_Y (sukf_correct_comp_lay nl ml w h y nz x P))) (lik_Rcat nz)).1.
+Proof. exact: (@step_sukf_lndet_gt0 F tr sq eg n nl ml k s alpha beta kappa h y nz Rb s_gt0 Hnz spdRb x P). Qed.
+
+Theorem C05_ukf_log_argument_positive (x : M O n 1) (P : M O n n) :
+  0 < \det (uo_Pyy (ukf_correct_comp_lay nl ml w h y (bdiag k Rb : M O m m) x P) : 'M[F]_m).
+Proof. exact: (@step_ukf_lndet_gt0 F tr sq eg sqrt_ok n nl ml k s alpha beta kappa h y Rb c_gt0 wc0_ge0 spdRb x P). Qed.
 
 Theorem C05_Pyy_invertible (x : M O n 1) (P : M O n n) :
-  uo_Pyy (ukf_correct_comp w h y (bdiag k Rb : M O m m) x P) \in unitmx.
-Proof. exact: (@step_Pyy_unit F tr sq eg sqrt_ok n k s alpha beta kappa h y Rb c_gt0 wc0_ge0 spdRb x P). Qed.
+  uo_Pyy (ukf_correct_comp_lay nl ml w h y (bdiag k Rb : M O m m) x P) \in unitmx.
+Proof. exact: (@step_Pyy_unit F tr sq eg sqrt_ok n nl ml k s alpha beta kappa h y Rb c_gt0 wc0_ge0 spdRb x P). Qed.
 
-(* the whole step on a mixture: same components (mean, covariance) in the same order,
-   the weights of the output object kept, same likelihood vector *)
+(* the whole step on a mixture: same components (mean, covariance) in the same order, written over
+   the first components of the output object (its further components and its weights are kept),
+   same likelihood vector *)
 Theorem C05_step_equals_ukf (pred corr_prev : mixture O n) :
-  (forall c, List.In c (mix_comps pred) -> psd (c.2 : 'M[F]_n)) ->
-  (sukf_correct w h y nz pred corr_prev).1 =
-    (ukf_correct w h y (bdiag k Rb : M O m m) pred corr_prev).1 /\
-  sukf_likelihood nz (sukf_correct w h y nz pred corr_prev).2 =
+  (forall c, List.In c (mix_comps pred) -> psd (c.2 : 'M[F]_n) /\ state_roundtrip nl w c.1 c.2) ->
+  (sukf_correct nl ml w h y nz pred corr_prev).1 =
+    (ukf_correct nl ml w h y (bdiag k Rb : M O m m) pred corr_prev).1 /\
+  sukf_likelihood nz (sukf_correct nl ml w h y nz pred corr_prev).2 =
     Some (List.map (@ukf_likelihood_comp O n m)
-                   (ukf_correct w h y (bdiag k Rb : M O m m) pred corr_prev).2).
-Proof. exact: (@sukf_step_is_ukf F tr sq eg sqrt_ok n k s alpha beta kappa h y nz Rb s_gt0 c_gt0 wc0_ge0 Hnz spdRb sq_contract pred corr_prev). Qed.
+                   (ukf_correct nl ml w h y (bdiag k Rb : M O m m) pred corr_prev).2).
+Proof. exact: (@sukf_step_is_ukf F tr sq eg sqrt_ok n nl ml k s alpha beta kappa h y nz Rb s_gt0 c_gt0 wc0_ge0 Hnz spdRb sq_contract pred corr_prev). Qed.
 
 (* (v) reduced constructor (one shared block) = full constructor with equal blocks:
    the whole step and the likelihood, for any weights, any h, no premise on R0 *)
 Theorem C05_reduced_eq_full (w' : utw O) (R0 : 'M[F]_s) (pred corr_prev : mixture O n) :
-  sukf_correct w' h y (@NoiseReduced O s m R0) pred corr_prev =
-  sukf_correct w' h y (@NoiseFull O s m (bdiag k (fun _ => R0))) pred corr_prev.
+  sukf_correct nl ml w' h y (@NoiseReduced O s m R0) pred corr_prev =
+  sukf_correct nl ml w' h y (@NoiseFull O s m (bdiag k (fun _ => R0))) pred corr_prev.
 Proof. exact: sukf_correct_reduced. Qed.
 
 Theorem C05_reduced_eq_full_likelihood (R0 : 'M[F]_s) (mb : members O n m) :
@@ -139,18 +167,19 @@ Proof. exact: sukf_likelihood_reduced. Qed.
 
 End C05.
 
-(* (vi) a measurement size that is not a multiple of the block size: the output is
+(* (vi) a measurement size that is not a multiple of the block size (0 < s: the code
+   computes meas_size % s, undefined for s = 0, whereas Coq's m mod 0 is m): the output is
    the predicted belief (components AND weights), and no likelihood is available
    afterwards, whatever an earlier step left behind (the step clears innovations_ first) *)
 Theorem C05_size_mismatch_identity (F : realFieldType) (tr : Transc F)
         (sq : forall n, 'M[F]_n -> 'M[F]_n) (eg : forall n, 'M[F]_n -> 'M[F]_(n,1))
-        n m' s (w : utw (MxMat tr sq eg)) (h : M (MxMat tr sq eg) n 1 -> M (MxMat tr sq eg) m' 1)
+        n m' s nl ml (w : utw (MxMat tr sq eg)) (h : M (MxMat tr sq eg) n 1 -> M (MxMat tr sq eg) m' 1)
         (y : M (MxMat tr sq eg) m' 1) (nz : noise (MxMat tr sq eg) s m')
         (pred corr_prev : mixture (MxMat tr sq eg) n) :
-  Nat.modulo m' s <> 0%N ->
-  sukf_correct w h y nz pred corr_prev = (pred, None) /\
-  sukf_likelihood nz (sukf_correct w h y nz pred corr_prev).2 = None.
-Proof. by move=> ne; rewrite sukf_size_mismatch. Qed.
+  (0 < s)%N -> Nat.modulo m' s <> 0%N ->
+  sukf_correct nl ml w h y nz pred corr_prev = (pred, None) /\
+  sukf_likelihood nz (sukf_correct nl ml w h y nz pred corr_prev).2 = None.
+Proof. by move=> _ ne; rewrite sukf_size_mismatch. Qed.
 
 (* ---- non-vacuity ---- *)
 (* the diagonal blocks of bdiag are the given blocks (so "noise_blocks (NoiseFull R) Rb"
@@ -167,9 +196,40 @@ Example C05_premises_satisfiable (F : realFieldType) s k :
   (forall j, (j < k)%N -> spd ((fun _ => 1%:M) j : 'M[F]_s)) /\ psd (1%:M : 'M[F]_s).
 Proof. by split=> [j _|]; [exact: spd1 | apply: spd_psd; exact: spd1]. Qed.
 
-(* the std::sqrt contract holds for Num.sqrt in every real closed field *)
-Example C05_sqrt_contract_rcf (K : rcfType) (x : K) : 0 <= x -> Num.sqrt x * Num.sqrt x = x.
-Proof. by move=> x0; rewrite -expr2 sqr_sqrtr. Qed.
+(* sqrt_ok and sq_contract instantiated TOGETHER, with every other premise of C05_cov, over any
+   real closed field K: std::sqrt := Num.sqrt (contract for every x >= 0), the matrix square
+   root oracle := the identity, which meets its contract on the prior P = I (the SVD factor
+   of the identity is the identity).  sq_contract is stated for all PSD matrices in the
+   section above only for convenience: every proof uses it at the component's P alone
+   (C05_Proofs.sukf_comp_cov takes the single equation sq P (sq P)^T = P), so this instance
+   exercises exactly what the proofs need.  n = 2 states, k = 2 blocks of size 1, alpha = 1,
+   beta = 2, kappa = 1: c = 3 > 0, wc_0 = 1/3 + 2 > 0. *)
+Example C05_all_premises_rcf (K : rcfType) :
+  let tr := @mkTransc K Num.sqrt id id id id id (fun a _ => a) 0 0 in
+  let sq := fun d (A : 'M[K]_d) => A in
+  let O := MxMat tr sq (fun d (A : 'M[K]_d) => 0) in
+  let w := @ut_weights O 2 1 (1 + 1) 1 in
+  let P : 'M[K]_2 := 1%:M in
+  [/\ forall x : K, 0 <= x -> t_sqrt tr x * t_sqrt tr x = x,
+      psd P /\ sq 2%N P *m (sq 2%N P)^T = P,
+      0 < utc w /\ 0 <= wc0 w,
+      forall x : 'cV[K]_2, @state_roundtrip K tr sq (fun d (A : 'M[K]_d) => 0) 2 2 w x P
+    & forall j, (j < 2)%N -> spd ((fun _ => 1%:M) j : 'M[K]_1)].
+Proof.
+split.
+- by move=> x x0; rewrite -expr2 sqr_sqrtr.
+- by split; [apply: spd_psd; exact: spd1 | rewrite mul1mx trmx1].
+- have E : utc (@ut_weights (MxMat (@mkTransc K Num.sqrt id id id id id (fun a _ => a) 0 0)
+                 (fun d (A : 'M[K]_d) => A) (fun d (A : 'M[K]_d) => 0)) 2 1 (1 + 1) 1) = 1 + 1 + 1.
+    by rewrite /= !mul1r addrC subrK.
+  rewrite E /= !mul1r; split; first by rewrite !addr_gt0 ?ltr01.
+  rewrite subrr add0r addr_ge0 ?addr_ge0 ?ler01 // divr_ge0 //.
+    by rewrite [X in 0 <= X - _]addrC addrK ler01.
+  have -> : (1 + 1 : K) + (1 + 1 + 1 - (1 + 1)) = 1 + 1 + 1 by rewrite addrC subrK.
+  by rewrite !addr_ge0 ?ler01.
+- by move=> x; apply: state_roundtrip_linear.
+- by move=> j _; exact: spd1.
+Qed.
 
 (* the executable instance of the same model over exact rationals: serial accumulation
    over two DIFFERENT 2x2 blocks equals I + Y^T R^-1 Y, d = Y^T R^-1 nu computed with
@@ -193,14 +253,53 @@ Example C05_concrete_Q :
   && qmx_eqb (fst accr) (fst accf) && qmx_eqb (snd accr) (snd accf) = true.
 Proof. vm_compute. reflexivity. Qed.
 
+(* ---- regression spec: the SUKF that ignores the circular part of the measurement description ----
+   (the code before the fix "SUKFCorrection treats circular measurement components on the circle").
+   The executable instance over exact rationals with angles measured in TURNS: wrap t = t - round t
+   is obtained by interpreting sin := id and atan2 y _ := y - floor (y + 1/2) (so that
+   atan2 (sin t) (cos t) = t - round t, and directional_mean = the wrapped weighted mean); sqrt is
+   only needed at c = 4.  One state, one circular measurement h(x) = x + 9/20, prior mean 1/10,
+   SVD factor 1/10, alpha = 1, kappa = 3 (c = 4, sigma points 1/10, 3/10, -1/10): the propagated
+   angles 11/20, 3/4, 7/20 have plain weighted mean 11/20 but circular mean -9/20, so the old
+   serial correction and the standard one compute different innovations (and everything after).
+   This is a counter-model for "the SUKF that ignores the layout equals the UKF" as a statement
+   about the model functions; the numerical disagreement of the library itself is reproduced by the
+   check on the reverted commit (signatures C05:sukf-ne-ukf:...). *)
+Definition TurnOps : SOps := {|
+  T := T QOps; s0 := s0 QOps; s1 := s1 QOps;
+  sadd := sadd QOps; ssub := ssub QOps; smul := smul QOps; sdiv := sdiv QOps; sopp := sopp QOps;
+  sleb := sleb QOps; sltb := sltb QOps; sofZ := sofZ QOps;
+  ssqrt := fun z : Q => if Qeq_bool z (4#1) then (2#1) else z;
+  sexp := fun z => z; sln := fun z => z; scos := fun _ => (1#1); ssin := fun z => z; sacos := fun z => z;
+  satan2 := fun (y _ : Q) => ssub QOps y (inject_Z (Qfloor (sadd QOps y (1#2))));
+  spi := (1#2); stiny := (0#1) |}.
+Definition TM := ListMat TurnOps (fun _ _ => [:: [:: 1#10]]%Q) (fun _ A => A).
+
+Example C05_ignoring_circular_measurement_refuted :
+  let w := @ut_weights TM 1 (1#1) (0#1) (3#1) in
+  let h := fun x : M TM 1 1 => @madd TM 1 1 x [:: [:: 9#20]]%Q in
+  let y := [:: [:: -2#5]]%Q in
+  let R := [:: [:: 1#100]]%Q in
+  let x := [:: [:: 1#10]]%Q in
+  let P := [:: [:: 1#100]]%Q in
+  let old := @sukf_correct_comp TM 1 1 1 1 w h y (@NoiseFull TM 1 1 R) x P in       (* layout ignored *)
+  let new := @sukf_correct_comp_lay TM 1 1 1 1 0 w h y (@NoiseFull TM 1 1 R) x P in (* one circular row *)
+  let ukf := @ukf_correct_comp_lay TM 1 1 1 0 w h y R x P in
+  qmx_eqb (so_innov new) (uo_innov ukf) && qmx_eqb (uo_innov ukf) [:: [:: 1#20]]%Q
+  && qmx_eqb (so_innov old) [:: [:: -19#20]]%Q && negb (qmx_eqb (so_innov old) (uo_innov ukf)) = true.
+Proof. vm_compute. reflexivity. Qed.
+
 Print Assumptions C05_block_sum.
 Print Assumptions C05_serial_cov_identity.
 Print Assumptions C05_push_through.
 Print Assumptions C05_sigma_cov.
+Print Assumptions C05_linear_roundtrip.
 Print Assumptions C05_cov.
 Print Assumptions C05_mean.
 Print Assumptions C05_likelihood.
 Print Assumptions C05_Cinv_invertible.
+Print Assumptions C05_sukf_log_argument_positive.
+Print Assumptions C05_ukf_log_argument_positive.
 Print Assumptions C05_Pyy_invertible.
 Print Assumptions C05_step_equals_ukf.
 Print Assumptions C05_reduced_eq_full.
